@@ -1,5 +1,6 @@
 #!/bin/sh
 # usage: seedquick2.sh <property id> <patch.diff> : like seedquick.sh but on the scratch worktree
+# (create the scratch worktree first: git -C /repo worktree add --detach /tmp/wt/chk1 HEAD; remove it afterwards with git -C /repo worktree remove --force /tmp/wt/chk1)
 # /tmp/wt/chk1 (so that it can run while /repo is in use by a bulk replay)
 id=$1; patch=$2; R=/tmp/wt/chk1
 cd $R || exit 2
